@@ -928,9 +928,11 @@ def ref(prog, enabled=True, draw=None, save_raises=False, funcs=None):
                     R['inputs'][ident] = out
                     if out == ('v', 'UNENCODABLE') and not (spec.get('handler') and step.get('hnone')):
                         R['unser'] = True   # (a handler that keeps nothing stores None instead of the value)
+                    if out == ('e', 'UnserExc'):
+                        R['unser'] = True   # the raised exception is stored as it is: the serializer refuses it at save time
             else:
                 R['results'][(spec['alias'], n)] = out
-                if out == ('v', 'UNENCODABLE'):
+                if out == ('v', 'UNENCODABLE') or out == ('e', 'UnserExc'):
                     R['unser'] = True
         if obs is not None:
             obs.append(['ret', mkval(out[1]) if out[1] != 'UNENCODABLE' else Unencodable()] if out[0] == 'v' else ['exc', out[1]])
